@@ -170,7 +170,7 @@ class TextTree(html.parser.HTMLParser):
 
 HTML_XSL = ('<xsl:stylesheet version="1.0" xmlns:xsl="%s" xmlns:xalan="http://xml.apache.org/xalan" exclude-result-prefixes="xalan"><xsl:output%%s/><xsl:template match="/"><html><head><title>t&amp;t</title>'
             '<script>if (a &lt; b &amp;&amp; c) x("%%s");</script><style>p &gt; b {}</style></head><body><p id="a&lt;b">x<br/>y &lt; z &amp; w &lt;b&gt;m&lt;/b&gt; &amp;amp;</p><hr/><img src="u v.png" alt="&lt;"/>'
-            '<input type="checkbox" checked="checked" disabled="disabled"/><a href="http://x/a b?c=d&amp;e=é">l</a><textarea> k </textarea><pre> p\n q</pre>%%s</body></html></xsl:template></xsl:stylesheet>' % XSL)
+            '<input type="checkbox" checked="checked" disabled="disabled"/><a href="http://x/a b?c=d&amp;e=é中ह">l</a><textarea> k </textarea><pre> p\n q</pre>%%s</body></html></xsl:template></xsl:stylesheet>' % XSL)
 
 
 def html_expect_events(extra):
@@ -315,6 +315,12 @@ def shard_main(shard, nshards, tier):
                 elif e[0] == 'start':
                     if e[1] == 'meta':
                         continue
+                    if e[1] == 'a':
+                        # URL attributes may be written with %XX escapes (UTF-8): the decoded value must be the requested one
+                        import urllib.parse
+                        href = dict(e[2]).get('href', '')
+                        if urllib.parse.unquote(href, errors='replace') != 'http://x/a b?c=d&e=é中ह':
+                            viols.append(('html|url-attribute-changed|%s' % lab, {'href': href, 'decoded': urllib.parse.unquote(href, errors='replace')}))
                     ev.append(('start', e[1]))
                 elif e[0] == 'end':
                     ev.append(('end', e[1]))
